@@ -483,11 +483,16 @@ def null_from(
     node: int,
 ) -> list[int]:
     result = []
+    skipped: set[int] = set()
 
     def scan(n: int) -> None:
         nonlocal result
         edges = nfa[n]
         if len(edges) == 1 and not edges[0].get("term"):
+            # a repetition of a nullable expression, e.g. `(a?)+`, makes a cycle of such nodes
+            if n in skipped:
+                return None
+            skipped.add(n)
             return scan(cast(int, edges[0]["to"]))
         result.append(n)
         for edge in edges:
